@@ -17,13 +17,13 @@ def budget(tier):
     return {"quick": 150, "thorough": 2500}[tier]
 
 
-ALGOS = ["T_HOO", "HCT", "VHCT"]
+ALGOS = ["T_HOO", "HCT", "VHCT", "SOO", "DOO", "StoSOO", "SequOOL", "Zooming", "POO", "GPO", "VROOM"]
 
 
 def explore(tier, seed, n):
     import algo_prop
     cases = [part_cases.gen_partition_case(seed, i, wellformed=(i % 5 != 4)) for i in range(n)]
-    per = {"quick": 6, "thorough": 80}[tier]
+    per = {"quick": 3, "thorough": 40}[tier]
     cases += algo_prop.run_cases([(seed + 300, i, a, None) for a in ALGOS for i in range(per)])
     mism, n_ops = fw.compare(cases)
     return {"cases": cases, "mism": mism, "n_ops": n_ops}
